@@ -1,2 +1,3 @@
 import CpSpec.Codes
 import CpSpec.Wire
+import CpSpec.Mpint
